@@ -205,8 +205,14 @@ def main(ck):
                 n_run += 1
                 nrows = 2 if has_id else 1
                 df = pd.DataFrame({n: [(SAMPLE[t][k] if (ro == 'Identifier' or k == 0) else None) for k in range(nrows)] for n, ro, t, _ in exp})
+                pds = None
                 if form == 'schema':
-                    r2 = guarded(lambda: eng.outcome(run_sdmx, 'DS_r <- %s;' % name, [PandasDataset(structure=obj, data=df.copy())]))
+                    try:
+                        pds = PandasDataset(structure=obj, data=df.copy())
+                    except Exception:  # noqa  pysdmx itself refuses the sample frame for this SDMX type (its own dtype casting): use run()
+                        stats['pysdmx_refused_frame'] = stats.get('pysdmx_refused_frame', 0) + 1
+                if pds is not None:
+                    r2 = guarded(lambda: eng.outcome(run_sdmx, 'DS_r <- %s;' % name, [pds]))
                     stats['run_sdmx'] += 1; via = 'run_sdmx'
                 else:
                     r2 = guarded(lambda: eng.outcome(run, 'DS_r <- %s;' % name, obj, {name: df.copy()}))
